@@ -18,6 +18,9 @@ func vpScenario(cmdIdx int) (argv []string, first []byte) {
 	zzvp.WriteFile(w+"/a", []byte("1"))
 	zzvp.WriteFile(w+"/d/b", []byte("2"))
 	zzvp.WriteFile(w+"/d/c", []byte("2")) // same bytes as d/b: one blob for two paths
+	// an ignore file and a file it excludes: reading .goitignore is one of the fallible reads of add
+	zzvp.WriteFile(w+"/.goitignore", []byte("*.log\n"))
+	zzvp.WriteFile(w+"/d/t.log", []byte("L"))
 	if cmdIdx == 2 {
 		return []string{"add", "a", "d"}, nil
 	}
@@ -93,11 +96,25 @@ func vpScenario(cmdIdx int) (argv []string, first []byte) {
 		return []string{"restore", "--staged", "a"}, first
 	case 22:
 		return []string{"reset", "--hard", "HEAD@{1}"}, first // the target lacks a directory the current commit has
+	// read-only commands: a failing read must not turn into a silently different report (C16; no modification to interrupt)
+	case 26:
+		return []string{"reflog"}, first
+	case 27:
+		zzvp.WriteFile(w+"/a", []byte("4"))
+		return []string{"status"}, first
+	case 28:
+		return []string{"log"}, first
+	case 29:
+		return []string{"ls-files", "-s"}, first
+	case 30:
+		return []string{"branch", "--list"}, first
+	case 31:
+		return []string{"cat-file", "-p", vpHexOfBranch("main")}, first
 	}
 	return []string{"status"}, first
 }
 
-const vpNumScenarios = 26
+const vpNumScenarios = 32
 
 func vpHexOfBranch(n string) string {
 	id, _, _ := vpBranch(n)
